@@ -556,11 +556,6 @@ def check(pid, tier, seed, replay=None):
         'wall_s': round(time.time() - t0, 2),
         'violations': len(violations),
     }
-    if not lean['discharged']:
-        # nothing was re-checked this run (broken proof): the proof-level keys would claim nothing, so the
-        # file falls back to the exploration-style counts of the correspondence run
-        ev['coverage']['discharged_count'] = ev['coverage'].pop('discharged')
-        ev['coverage']['explanation'] = 'no theorem could be re-checked in this run; see violations / replay file'
     os.makedirs(os.path.join(ROOT, 'evidence'), exist_ok=True)
     with open(os.path.join(ROOT, 'evidence/%s.json' % pid), 'w') as f:
         json.dump(ev, f, indent=1)
